@@ -11,13 +11,13 @@ RULE = (
     "applies and none is injected. Non-trivial = history of >= 2 calls with at least one non-zero rotation; distinct = "
     "distinct event digests among those."
 )
-PROBES = ["repeat-last", "return-to-fold", "history>=4", "mixed-dm-period", "dm-only", "period-only", "nonzero-rotation", "one-step-compared", "non-contiguous-cube"]
+PROBES = ["repeat-last", "return-to-fold", "history>=4", "mixed-dm-period", "dm-only", "period-only", "nonzero-rotation", "one-step-compared", "non-contiguous-cube", "implied-shift>=1.5-bins-checked"]
 COMPONENTS = {
     "real": ["sigpyproc.foldedcube.FoldedData.update_dm/update_period/_get_dmdelays/_get_pdelays", "params.compute_dmdelays"],
     "simulated": ["the call history (targets, order, repeats)"],
     "stubbed": [],
 }
 ASSUMPTIONS = [
-    "the one-step reference is the library's own single update on a fresh cube (refinement of a history against one step); the rotation amounts themselves belong to C09",
+    "the one-step reference is the library's own single update on a fresh cube (refinement of a history against one step); in addition single-parameter histories are compared with a tolerant absolute model of the implied shift (real-valued drift from the dispersion law / the linear period drift; the observed rotation must be within 1 bin, so any rounding convention passes)",
     "for mixed DM+period histories the 'equals a fresh cube' clause is not asserted (the DM shift in bins depends on the current period); rotation-only, idempotence, reported values and return-to-fold are",
 ]
